@@ -861,7 +861,9 @@ impl Version {
                 FIND_BEST_COMPACTION_MAX_BYTES_EXCEEDED.click();
                 return (candidate, best_score);
             }
-            if inputs.len() > self.options.max_compaction_files
+            // Level 0 is compacted as a whole; like the byte limit, the file limit must not make
+            // that impossible, or a level 0 whose files cannot sink one by one stalls for ever.
+            if (inputs.len() > self.options.max_compaction_files && lower_level != 0)
                 || inputs.len() > self.options.max_open_files
             {
                 FIND_BEST_COMPACTION_MAX_FILES_EXCEEDED.click();
